@@ -1167,4 +1167,44 @@ pub mod verif_hooks {
             max_packsize_tolerate_percent,
         }
     }
+
+    use crate::{
+        index::indexer::Indexer,
+        repository::{Open, Repository},
+    };
+
+    /// Feeds `(type, plaintext, id)` triples, in order, to one data `Packer` and one tree `Packer` that
+    /// share one `Indexer` (set up as in `Archiver::new`), then finalizes data packer, tree packer and
+    /// indexer (the order of `Archiver::archive`).  Returns `(blobs, data, data_packed)` of the data and
+    /// of the tree packer.
+    pub fn pack_blobs<S: Open>(
+        repo: &Repository<S>,
+        blobs: Vec<(BlobType, Vec<u8>, BlobId)>,
+    ) -> RusticResult<[(u64, u64, u64); 2]> {
+        let be = repo.dbe().clone();
+        let config = repo.config();
+        let indexer = Indexer::new(be.clone()).into_shared();
+        let data_packer = Packer::new(
+            be.clone(),
+            BlobType::Data,
+            indexer.clone(),
+            PackSizer::from_config(config, BlobType::Data, 0),
+        )?;
+        let tree_packer = Packer::new(
+            be,
+            BlobType::Tree,
+            indexer.clone(),
+            PackSizer::from_config(config, BlobType::Tree, 0),
+        )?;
+        for (tpe, data, id) in blobs {
+            match tpe {
+                BlobType::Data => data_packer.add(data.into(), id)?,
+                BlobType::Tree => tree_packer.add(data.into(), id)?,
+            }
+        }
+        let d = data_packer.finalize()?;
+        let t = tree_packer.finalize()?;
+        indexer.write().unwrap().finalize()?;
+        Ok([(d.blobs, d.data, d.data_packed), (t.blobs, t.data, t.data_packed)])
+    }
 }
